@@ -163,12 +163,14 @@ theorem addForeignKey_frame (t t' : Table) (fk : ForeignKey) (hs : t.addForeignK
         simp only at h1
         obtain ⟨l, _, h1⟩ := bind_ok h1
         have := pure_ok h1; subst this; rfl
-    show List.map (fun c : Column => (c.name, c.action, c.cur.typ)) (t1.cols.map _) = _
+    show List.map (fun c : Column => (c.name, c.action, c.cur.typ, optKinds c.cur.opts)) (t1.cols.map _) = _
     rw [List.map_map, h1s]
     apply List.map_congr_left
     intro c _
     simp only [Function.comp_apply]
-    split <;> rfl
+    split
+    · simp only [optKinds_append_mark]
+    · rfl
   · unfold addForeignKey at hs
     obtain ⟨t1, h1, hs⟩ := bind_ok hs
     have := pure_ok hs; subst this
